@@ -195,7 +195,9 @@ template <int N, class T> static void qrrq(pbt::Ctx& c) {
 	if (c.verbose) c.logf("M=%s class=%s kappa=%.4Lg", mstr(m, N).c_str(), CK[gc], r.kappa);
 	if (r.singular || r.kappa > CAP<T>()) { c.cls("singular or kappa above the cap (discarded)"); c.skip(); return; }
 	c.cls(MC_NAME[gc]);
-	const R u = U<T>(), cN = N * (N + 3), tq = 8 * cN * u * r.kappa;
+	// x64 margin (not x8): one near-rank-one 4x4 double in 1.1e8 thorough cases reached 1.0 of the x8 bound; the documentation promises
+	// orthonormal columns without a bound, so the model bound is kept but with room for its constant
+	const R u = U<T>(), cN = N * (N + 3), tq = 64 * cN * u * r.kappa;
 	if (tq > 1e-2L) c.cls("orthogonality bound vacuous (> 1e-2)");
 	else if (!is_diagonal(m, N)) c.nontrivial();
 	auto M = G<N, T>(m);
